@@ -142,8 +142,33 @@ def check_fast(ident, payload, rng):
             return last
         run(name, feed)
     ref = res["basic"]
+    # the same inputs through ONE decoder, the formats in a random order: an application may feed one decoder from
+    # several front-ends; what it returns for an input does not depend on which format delivered the PGN before
+    shared = NMEA2000Decoder()
+    jobs = [("actisense", lambda: shared.decode_actisense_string(acti)), ("basic", lambda: shared.decode_basic_string(basic, True))]
+    for name, meth in (("ebyte", "decode_tcp"), ("usb", "decode_usb"), ("yd", "decode_yacht_devices_string")):
+        ins = [bytes.fromhex(i) if name != "yd" else i for i in shown[name]]
+
+        def feed_shared(ins=ins, meth=meth):
+            last = None
+            for k, i in enumerate(ins):
+                m = getattr(shared, meth)(i)
+                if m is not None and k < len(ins) - 1:
+                    return m
+                last = m
+            return last
+        jobs.append((name, feed_shared))
+    rng.shuffle(jobs)
+    order = [n for n, _ in jobs]
+    for name, fn in jobs:
+        run("shared:" + name, fn)
     for name, r in res.items():
         if r != ref:
+            if name.startswith("shared:") and res[name[7:]] == ref:
+                return {"key": f"assembled:one-decoder:{name[7:]}", "kind": "fast", "ident": ident, "payload": payload.hex(),
+                        "inputs": shown,
+                        "what": f"fast-packet PGN {ref_extract(ident)[0]} payload {payload.hex()}: one decoder fed through the formats "
+                                f"in the order {order} gives {str(r)[:160]} for {name[7:]}, a new decoder gives {str(ref)[:160]}"}
             return {"key": f"assembled:{name}", "kind": "fast", "ident": ident, "payload": payload.hex(),
                     "inputs": shown,
                     "what": f"fast-packet PGN {ref_extract(ident)[0]} payload {payload.hex()} ({len(payload)} bytes): {name} gives "
@@ -232,7 +257,9 @@ def replay(ctx, data):
     inputs = [i for i in w["inputs"]] if w.get("kind") != "fast" else None
     if w.get("kind") == "fast":
         import random
-        r = check_fast(w["ident"], bytes.fromhex(w["payload"]), random.Random(0))
+        r = None
+        for k in range(8):          # the order of the formats on the shared decoder is drawn from the generator
+            r = r or check_fast(w["ident"], bytes.fromhex(w["payload"]), random.Random(k))
         print("expected: the same message through pre-assembled and frame-by-frame formats")
         print("observed:", r["what"] if r else "property holds on this input")
         return r is not None
